@@ -557,3 +557,55 @@ func zzRollbackHandOver(prop string) {
 	nondet.Observe("state", string(final.Status.State))
 	nondet.Reach(prop+".fault-then-replicaset-sync", anyFault && final.Status.Canary == nil)
 }
+
+// ZZ_C11_sameInstanceAcrossARoleChange: "keeps no decision state outside the API objects" for one
+// long-lived controller instance: the same Reconciler syncs foo-old while it is active (nothing to do),
+// then the ExtendedDaemonSet promotes foo-new, whose first sync deletes one outdated pod, then foo-old
+// is synced again with every read arbitrarily rejected, then foo-new fault-free.  Whatever was read or
+// not, the former active replica set creates and deletes nothing after the promotion (what it saw
+// while it was active must not be acted on), and the roll-out goes on.
+func ZZ_C11_sameInstanceAcrossARoleChange() {
+	c, ds, rsNew, rsOld := zzStore(3)
+	ds.Status.ActiveReplicaSet = rsOld.Name
+	for i := 0; i < 3; i++ {
+		c.Pods = append(c.Pods, zzPod("old-"+zzNodeName(i), zzNodeName(i), zzOldRS, zzHashOld, 0, corev1.PodRunning, true, nondet.Base().Add(-2*time.Hour)))
+	}
+	r := zzReconciler(c, false)
+	_, err := zzReconcile(r, zzNS, rsOld.Name)
+	nondet.Assert("C11.same-instance.active-noop", err == nil && c.Count("create", "Pod") == 0 && c.Count("delete", "Pod") == 0)
+	// the promotion
+	for _, s := range c.EDS {
+		s.Status.ActiveReplicaSet = rsNew.Name
+	}
+	_, err = zzReconcile(r, zzNS, rsNew.Name)
+	nondet.Assert("C11.same-instance.new-active-starts", err == nil && c.Count("delete", "Pod") == 1 && c.Count("create", "Pod") == 0)
+	zzKubelet(c) // a minute passes
+	// the former active replica set, with failing reads
+	c.InjectReadFaults = true
+	mark := len(c.Log)
+	_, err = zzReconcile(r, zzNS, rsOld.Name)
+	c.InjectReadFaults = false
+	nondet.Observe("error", err != nil)
+	readFailed := false
+	for _, e := range c.Log[mark:] {
+		if e.Failed && (e.Verb == "get" || e.Verb == "list") {
+			readFailed = true
+		}
+		if e.Kind == "Pod" && (e.Verb == "create" || e.Verb == "delete") {
+			nondet.Assert("C11.same-instance.former-active-touches-no-pod", false)
+		}
+	}
+	// the roll-out goes on
+	zzKubelet(c)
+	_, err = zzReconcile(r, zzNS, rsNew.Name)
+	nondet.Assert("C11.same-instance.rollout-goes-on", err == nil)
+	newPods := 0
+	for _, p := range c.Pods {
+		if p.Labels[datadoghqv1alpha1.ExtendedDaemonSetReplicaSetNameLabelKey] == rsNew.Name {
+			newPods++
+		}
+	}
+	nondet.Assert("C11.same-instance.new-pod-created", newPods == 1)
+	nondet.Reach("C11.same-instance.owner-read-rejected", readFailed)
+}
+
